@@ -195,6 +195,16 @@ def runCache (r : Report) (s : Section) : Report := Id.run do
       let (c', o) := c.step .tick
       let (a', ao) := a.step .tick
       r := r.addCover (if o.expired.isEmpty then "cache-tick" else "cache-tick-expires")
+      -- the property's words "unless it … has expired", on what the REAL wheel handed to the expiry callback: an entry
+      -- expires at the tick its OWN (jittered) expiry falls due — the expire ARGUMENT of the SetWithExpire that stored
+      -- it, the configured default for Set / Take — not earlier and not later
+      let implExp := (kvStr obs "expired").splitOn "," |>.filterMap (·.toNat?)
+      for k in implExp do
+        if ¬ ao.expired.contains k then
+          r := r.violation s.idx l.idx s!"struct=cache op=[tick] entry {k} expired EARLY: its own expiry (the expire it was set with, jittered) is not due yet {if (alookup a.data k).isSome then "- the latest value set is lost although it was neither deleted nor expired nor evicted" else "(key not cached)"}"
+      for k in ao.expired do
+        if ¬ implExp.contains k then
+          r := r.violation s.idx l.idx s!"struct=cache op=[tick] entry {k} did NOT expire although the expiry it was set with (jittered) has passed: it outlives its expire"
       r := judge r s!"expired={keysS (sortNat o.expired)}" s!"expired={keysS (sortNat ao.expired)}"
       c := c'; a := a'
     | ["st"] =>
